@@ -210,7 +210,7 @@ pub fn case_for(seed: u64, tier: Tier, run: u64) -> Case {
     let curve = CURVES[(run % 3) as usize];
     let mut rng = sub_rng(seed, "C06", run, "case");
     let kn = tier.pick(gen::Knobs::quick(), gen::Knobs::thorough());
-    let base = if run < 24 {
+    let base = if run < 3 * gen::scripted(Curve::Secq).len() as u64 {
         c01::case_for(seed, tier, run)
     } else {
         gen_session_case(&mut rng, curve, &kn)
